@@ -444,6 +444,9 @@ def run_check(prop: str, analyse: Callable[[Report], None], tier: str,
     if rep.errors:
         for m in rep.errors:
             print(f'ANALYSIS-ERROR property={prop} {m}')
+        for f in unlisted:
+            print(f'  (unconfirmed while the analysis is broken) {f.rule} {f.file}:{f.line} '
+                  f'{f.construct} [{f.key}]: {f.message}')
         return 2
     if unlisted:
         for f in unlisted:
